@@ -4,8 +4,10 @@
  *   hs <tlcp|tls12|tls13> <auth 0|1> <depth 1..3> <seed> <split 0|1> <script|->
  *
  * Output: key=value fields (see run.py).  The data script is executed by the main thread on the
- * two TLS_CONNECT objects after both handshakes returned 1:
+ * two TLS_CONNECT objects after both handshakes returned 1; after every step the four public
+ * sequence numbers (client.client_seq, client.server_seq, server.client_seq, server.server_seq) are printed:
  *   w<c|s><n>   application write loop of n pattern bytes on that side (prints the sentlen of each call)
+ *   e<c|s>0     one send call with datalen 0 (tls_send refuses it; tls13_send emits an empty record)
  *   r<c|s><n>   one tls_recv / tls13_recv with an n-byte buffer on that side (prints len:fnv32)
  *   x<c|s>      orderly close: tls_shutdown-style close_notify is not modelled; just hang up
  */
@@ -96,11 +98,20 @@ static void do_hs(char **w) {
 					off += sent;
 				}
 				(void)err; free(buf);
+			} else if (t[0] == 'e') {      /* one send call with datalen 0 */
+				uint8_t *buf = malloc(1); size_t sent = 99; int r = ep_send(e, buf, 0, &sent);
+				if (r != 1) printf("eERR"); else printf("e%zu", sent);
+				free(buf);
 			} else if (t[0] == 'r') {
 				uint8_t *buf = malloc(n ? n : 1); size_t got = 0; int r = ep_recv(e, buf, n, &got);
 				if (r != 1) printf("rERR"); else if (got > n) printf("rBADLEN"); else printf("r%zu:%08x", got, fnv(buf, got));
 				free(buf);
 			} else printf("?");
+			{	/* the public sequence numbers of both connections after every step (lockstep observed) */
+				unsigned long long q[4]; const uint8_t *p4[4] = { S->c.conn->client_seq_num, S->c.conn->server_seq_num, S->s.conn->client_seq_num, S->s.conn->server_seq_num }; int a, b2;
+				for (a = 0; a < 4; a++) { q[a] = 0; for (b2 = 0; b2 < 8; b2++) q[a] = (q[a] << 8) | p4[a][b2]; }
+				printf("@%llu.%llu.%llu.%llu", q[0], q[1], q[2], q[3]);
+			}
 		}
 		{ /* records that crossed the proxy after the handshake */
 			int d, i; struct timespec ts = { 0, 20000000 }; nanosleep(&ts, NULL);
